@@ -429,3 +429,55 @@ def precond(rng, alphabet="abc"):
         rep = ("grp", rep)
     tail = rng.choice([("seq", []), ch(), ("eol",), ("seq", [ch(), ch()]), ("nc", fixed_alt())])
     return ("seq", head + [rep, tail])
+
+
+HIGH = ["x", "z", "o", "g", "\u00e9", "\U0001F600"]
+
+
+def bigfollow(rng):
+    """a quantified single character / class whose characters lie above the first hundred code
+    points of the follower's first-character set, followed by a term with a large first-character
+    set (., \\w, \\S, a negated class, a group): the shape on which a give-up path of the
+    disjointness test decides whether the repeat may stop backtracking.  Returns (ast, inputs)."""
+    x = rng.choice(HIGH)
+    y = rng.choice([c for c in HIGH if c != x])
+    rep_body = rng.choice([("chr", x), ("cls", False, [("c", x)], None), ("cls", False, [("c", x), ("c", y)], None)])
+    mn, mx = rng.choice([(0, None), (1, None), (0, 1), (1, 3), (0, 2), (2, None)])
+    rep = ("q", rep_body, mn, mx, rng.random() < 0.6)
+    follower = rng.choice([("dot",), ("esc", "\\w"), ("esc", "\\S"), ("cls", True, [("c", "a")], None),
+                           ("grp", ("seq", [("chr", x), ("chr", y)])), ("grp", ("chr", x)),
+                           ("q", ("chr", x), 1, None, True), ("esc", "\\p{L}"), ("cls", True, [("r", "0", "9")], None)])
+    parts = [rep, follower]
+    if rng.random() < 0.4:
+        parts.insert(0, rng.choice([("chr", "a"), ("bol",), ("chr", y)]))
+    if rng.random() < 0.4:
+        parts.append(rng.choice([("chr", y), ("eol",), ("chr", "-")]))
+    inputs = ["", x, x * 2, x * 3, x * 2 + "-", "-" + x * 2 + "-" + x * 3, x * 2 + y, y + x + x, "a" + x * 2, x + y + x * 2 + y]
+    return ("seq", parts), inputs
+
+
+def groupfollow(rng, alphabet="xyz"):
+    """X-repeat followed by a quantified group whose body is a sequence that starts with a
+    nullable term and goes on with X: the first-character set of the group is that of a sequence
+    with a nullable head, which the optimiser must not under-estimate.  Returns (ast, inputs)."""
+    x = rng.choice(alphabet)
+    others = [c for c in alphabet if c != x] or [x]
+    y, z = rng.choice(others), rng.choice(others)
+    rep_body = rng.choice([("chr", x), ("cls", False, [("c", x)], None), ("cls", False, [("c", x), ("c", y)], None), ("esc", "\\d")])
+    if rep_body[0] == "esc":
+        x = "1"
+    rep = ("q", rep_body, *rng.choice([(0, None), (1, None), (0, 2), (1, 3)]), rng.random() < 0.7)
+    head = rng.choice([("q", ("alt", [("chr", y), ("seq", [("chr", z), ("chr", z)])]), 0, 1, True),
+                       ("q", ("alt", [("chr", y), ("seq", [("chr", z), ("chr", z)])]), 0, None, True),
+                       ("q", ("chr", y), 0, 1, True), ("q", ("chr", y), 0, None, False),
+                       ("alt", [("chr", y), ("seq", [])]), ("q", ("seq", [("chr", y), ("chr", z)]), 0, 1, True),
+                       ("bol",), ("seq", [])])
+    body = ("seq", [head, ("chr", x)] + ([("chr", rng.choice(alphabet))] if rng.random() < 0.3 else []))
+    grp = rng.choice([("nc", body), ("nc", body), ("grp", body)])
+    follower = rng.choice([("q", grp, 1, None, True), ("q", grp, 1, 2, True), ("q", grp, 2, 3, True), grp, ("q", grp, 1, None, False)])
+    parts = [rep, follower]
+    if rng.random() < 0.3:
+        parts.insert(0, ("bol",))
+        parts.append(("eol",))
+    inputs = ["", x, x * 2, x * 3, x + y + x, x * 2 + z * 2 + x, y + x, "-" + x * 2 + "-", x + y, y, x * 2 + y + x + y + x]
+    return ("seq", parts), inputs
